@@ -1096,12 +1096,19 @@ func clipBorderSegment(context backend.Canvas, style pr.String, width fl, side p
 			// 2x + 1 dashes
 			context.State().Clip(true)
 			ld := fl(math.Round(float64(length / dash)))
+			if ld < 1 {
+				// side shorter than half a dash: one dash covers it
+				ld = 1
+			}
 			denom := ld - utils.FloatModulo(ld+1, 2)
 			dash = length
 			if denom != 0 {
 				dash /= denom
 			}
-			maxI := int(math.Round(float64(length / dash)))
+			maxI := 1
+			if dash > 0 {
+				maxI = int(math.Round(float64(length / dash)))
+			}
 			for i_ := 0; i_ < maxI; i_ += 2 {
 				i := fl(i_)
 				switch side {
